@@ -7,6 +7,7 @@ import (
 	"time"
 
 	xmpp "gosrc.io/xmpp"
+	"gosrc.io/xmpp/stanza"
 )
 
 // C16 — component handshake digest is exact; success requires the server's
@@ -80,7 +81,9 @@ func runC16(e *Engine, g G, o RunOpt) RunInfo {
 		c.DelayMs = []int{0, 0, 20, 3000}[g.N("delay", 4)]
 		c.Stanzas = g.Range("stanzas", 0, 4)
 		c.Trailing = g.Pct("trailing", 30)
-		c.EndBy = []string{"close", "cut", "stream-error", "disconnect"}[g.N("endby", 4)]
+		// ("handler-reconnects": the session is not ended at all - a route handler of the application, told
+		// to by a message, makes the next connection from within the receive loop)
+		c.EndBy = []string{"close", "cut", "stream-error", "disconnect", "handler-reconnects"}[g.N("endby", 5)]
 		// before the next connection, an attempt that does not get as far as the handshake (the dial is refused)
 		c.RefusedAfter = g.Pct("refused-attempt-after", 30)
 		sc.Conns = append(sc.Conns, c)
@@ -192,6 +195,15 @@ func runC16(e *Engine, g G, o RunOpt) RunInfo {
 				}
 			}
 		}
+		w.OnPacket = func(_ xmpp.Sender, p stanza.Packet) {
+			if m, ok := p.(stanza.Message); ok && m.Id == "reconnect-now" {
+				preEv, preHandled = len(w.Events), len(w.Handled)
+				handlerErr = w.Comp.Resume()
+				handlerDid = true
+				e.Logf("app.reconnect", "Resume from a route handler: %v", handlerErr)
+				e.Probe("c16.reconnected_from_a_route_handler")
+			}
+		}
 		msg := 0
 		for i, c := range sc.Conns {
 			at := atts[i]
@@ -248,6 +260,10 @@ func runC16(e *Engine, g G, o RunOpt) RunInfo {
 					conn.Send("<stream:error><system-shutdown xmlns='" + nsStreams + "'/></stream:error></stream:stream>")
 					e.Yield("srv.closing")
 					conn.Close()
+					e.Sleep(20 * time.Second)
+				case c.EndBy == "handler-reconnects" && conn.Established != "":
+					atts[i+1] = &attempt{}
+					conn.Send(fmt.Sprintf("<message id='reconnect-now' from='admin@%s' to='comp.%s'><body>reconnect</body></message>", SimDomain, SimDomain))
 					e.Sleep(20 * time.Second)
 				case c.EndBy == "cut":
 					conn.Pipe.Cli.CutAt = conn.End.TotalWritten
